@@ -740,7 +740,7 @@ def check_file_roundtrip(args):
             st = _iterate(path)
             exp = [data[a:b] for a, b in spans if b <= t]
             if st[0] != "ok":
-                return ("iterating the %d-byte file cut at %d: %s" % (len(data), t, st[0] if st[0] == "timeout" else st[1]),
+                return ("iterating the %d-byte file %s cut at %d: %s" % (len(data), hexb(data), t, st[0] if st[0] == "timeout" else st[1]),
                         "total" if st[0] == "timeout" else "iterate")
             if st[1] != exp:
                 kind = "roundtrip" if t == len(data) else "truncation"
@@ -789,6 +789,7 @@ def oracles_C12(ctx, hints):
         w = check_file_total(args)
         if w:
             _first(fails, Failure("file_total", args, w, {"class": "FileParser", "check": "total"}))
+            break
     ctx.count("oracle_evaluations", n)
     return fails
 
@@ -803,6 +804,7 @@ def oracles_C08(ctx, hints):
         w = check_file_total(args)
         if w:
             _first(fails, Failure("file_total", args, w, {"class": "FileParser", "check": "total"}))
+            break
     ctx.count("oracle_evaluations", n)
     return fails
 
@@ -1145,3 +1147,43 @@ def oracles_C19(ctx, hints):
 ORACLES["namespace"] = check_namespace
 ORACLES["chapter10_class"] = check_chapter10_class
 ORACLES["chapter10_same"] = check_chapter10_same
+
+# =================================================================================== C13: targeted histories
+def _c13_cases(ctx):
+    """(class, ops, final unpack): an object that has been filled and packed (so that pack's derived fields
+    — filler, packetlen, datalen, packetsize — and every optional field are set), optionally re-used for
+    another buffer, then given the final buffer; compared with a fresh object given only the final buffer"""
+    rng = ctx.rng
+    gens = {"Chapter10UDP": lambda: {k: _txt(v) for k, v in udp_fields(rng).items()},
+            "Chapter11": lambda: {k: _txt(v) for k, v in ch11_fields(rng, n=rng.randrange(0, 9)).items()},
+            "Chapter10": lambda: {k: _txt(v) for k, v in ch11_fields(rng, n=rng.randrange(0, 9)).items()},
+            "PTPTime": lambda: ptp_valid(rng), "RTCTime": lambda: rtc_valid(rng)}
+    out = []
+    for cls, g in gens.items():
+        packed = _packed_of([gen.H(cls, gen.sets(g()) + ["pack"]) for _ in range(12)])
+        if not packed:
+            continue
+        for _ in range(ctx.scale(30, 1500)):
+            ops = gen.sets(g()) + ["pack"]
+            c = rng.random()
+            if c < 0.4:
+                ops.append("unpack " + hexb(rng.choice(packed)))
+            elif c < 0.6:
+                ops += ["unpack " + hexb(rng.choice(packed)), "pack"]
+            out.append((cls, ops, "unpack " + hexb(rng.choice(packed))))
+    return out
+
+def corr_C13(ctx):
+    return [gen.H(cls, ops + [final, "obs", "pack", "obs", "pack", "obs"]) for cls, ops, final in _c13_cases(ctx)]
+
+def oracles_C13(ctx, hints):
+    from .. import generic
+    fails, n = [], 0
+    for cls, ops, final in _c13_cases(ctx):
+        args = {"cls": cls, "opts": [], "ops": ops, "final": [final]}
+        n += 1
+        w = generic.check_history_independence(args)
+        if w:
+            _first(fails, Failure("history_independence", args, w, {"class": cls, "check": "history"}))
+    ctx.count("oracle_evaluations", n)
+    return fails
